@@ -28,7 +28,7 @@
 From Coq Require Import ZArith NArith QArith String List Lia.
 From PV Require Import Gen.TedConst Ted.TedSpec Ted.TedProofs Ted.Cost Ted.CostProofs Ted.ZS Ted.TedSim Ted.TedMemo
   Ted.TedBrute Ted.BoundedDefs Ted.BoundedPython Ted.TedCorollaries Ted.ZSRefine
-  Ted.TedRight Ted.ZSPost Ted.ZSPrepare Ted.ZSTable Ted.ZSExact Ted.ZSCorollaries Ted.TaiSteps Ted.TaiUpper Ted.TaiLower Ted.CostTie.
+  Ted.TedRight Ted.ZSPost Ted.ZSPrepare Ted.ZSTable Ted.ZSExact Ted.ZSCorollaries Ted.TaiSteps Ted.TaiUpper Ted.TaiLower Tie.TedTie.
 Import ListNotations.
 
 (* tie to the code: the label predicates, multiplier cases and similarity levels of the Python cost model (Ted/Cost.v)
